@@ -1018,3 +1018,30 @@ def user_bounds(case):
 def objective_of(case, x, r):
     """sum(r^2) + h(x) recomputed by the harness."""
     return float(np.dot(r, r)) + reg_value(case, np.asarray(x, dtype=float))
+
+
+def budget_enumeration(case, judge, res, iter_hook_factory=None, cap=60):
+    """Re-runs the scenario with maxfun = 1 .. nf (nf = evaluations of its own run, capped) and applies judge(case_k, obs_k, sub)
+    to each: every place at which the budget can run out is visited, exhaustively inside the scenario. Failures are prefixed with
+    the budget. Returns (nf, reference observation)."""
+    from .core import CaseResult
+    base = {k: v for k, v in case.items() if k != "enum_budgets"}
+    ref = run_solve(base)
+    if ref.soln is None or not ref.calls:
+        res.count("reference-run-unusable")
+        return 0, ref
+    nf = min(len(ref.calls), cap)
+    for k in range(1, nf + 1):
+        c2 = dict(base)
+        c2["maxfun"] = k
+        o = run_solve(c2, iter_hook=iter_hook_factory(c2) if iter_hook_factory else None)
+        sub = CaseResult()
+        for clause, detail in o.iter_fail:
+            sub.fail(clause, detail)
+        judge(c2, o, sub)
+        res.count("budget-runs")
+        for clause, detail in sub.failures:
+            res.fail(clause, "[maxfun=%d of %d] %s" % (k, nf, detail))
+        if res.failures:
+            break
+    return nf, ref
